@@ -28,14 +28,14 @@ type Violation struct {
 
 // Result is what one batch reports.
 type Result struct {
-	Evaluations int64            `json:"evaluations"`
-	Shapes      []uint64         `json:"shapes"`
-	ShapesCut   bool             `json:"shapes_cut"`
-	Violations  []Violation      `json:"violations"`
-	Samples     []any            `json:"samples"`
-	Counters    map[string]int64 `json:"counters"`
+	Evaluations int64             `json:"evaluations"`
+	Shapes      []uint64          `json:"shapes"`
+	ShapesCut   bool              `json:"shapes_cut"`
+	Violations  []Violation       `json:"violations"`
+	Samples     []any             `json:"samples"`
+	Counters    map[string]int64  `json:"counters"`
 	Digests     map[string]string `json:"digests"`
-	Done        bool             `json:"done"`
+	Done        bool              `json:"done"`
 }
 
 // Ctx is handed to a property's batch runner.
@@ -225,11 +225,11 @@ func Lookup(id string) Property { return registry[id] }
 // Base gives defaults.
 type Base struct{}
 
-func (Base) Level() string               { return "exploration" }
-func (Base) Assumptions() []string       { return nil }
-func (Base) Exhaustive(string) bool      { return false }
-func (Base) MaxParallel() int            { return 0 }
-func (Base) MinNontrivial(string) int    { return 2 }
+func (Base) Level() string            { return "exploration" }
+func (Base) Assumptions() []string    { return nil }
+func (Base) Exhaustive(string) bool   { return false }
+func (Base) MaxParallel() int         { return 0 }
+func (Base) MinNontrivial(string) int { return 2 }
 
 // SubCommands lets properties register helper child-process entry points (C07, C09, C17, C18).
 var SubCommands = map[string]func(args []string) int{}
